@@ -381,7 +381,7 @@ def _prev_sig(toks, i):
     return j
 
 
-def rewrite_body(text, rules_log, intended_panics=False, keep_asserts=False):
+def rewrite_body(text, rules_log, intended_panics=False, keep_asserts=False, runtime_asserts=False):
     """apply R1, R2, R5, R10 to the text of a fn body (with braces).  Returns new text."""
     toks = full_tokens(text)
     out = []
@@ -465,6 +465,22 @@ def rewrite_body(text, rules_log, intended_panics=False, keep_asserts=False):
                         else:
                             out.append(Tok("punct", "()", t.pos))   # expression position (match arm)
                             i = close + 1
+                        continue
+                    if runtime_asserts and name in ("assert", "assert_eq", "assert_ne"):
+                        # R5e: a release-mode assertion whose panic is DOCUMENTED behaviour of the function: it is a
+                        # run-time check (`if !(c) { panic }`), so what follows it may rely on the condition — and
+                        # deleting it is visible to a postcondition that needs it
+                        args = toks[k + 1:close]
+                        if name == "assert":
+                            ctext = "".join(x.text for x in _first_arg(args))
+                        else:
+                            a_, rest_ = _split_first(args)
+                            b_ = _first_arg(rest_)
+                            ctext = "(" + "".join(x.text for x in a_) + ") " + ("!=" if name == "assert_ne" else "==") + " (" + "".join(x.text for x in b_) + ")"
+                        rules_log.append(("R5e", norm("".join(x.text for x in toks[i:close + 1])) + " -> run-time check with an intended panic"))
+                        out.append(Tok("ident", "if !(" + ctext + ") { vpanic_intended(); }", t.pos))
+                        i = close + 1
+                        e2 = _next_sig(toks, i)
                         continue
                     if name in ("assert", "debug_assert") and not keep_asserts:
                         args = toks[k + 1:close]
@@ -1069,8 +1085,33 @@ def trace_calls(body, names, rules_log):
         hit = None
         resnames = {n[:-1] for n in names if n.endswith("?")}      # `f?`: the event records whether the call returned Ok
         names = [n[:-1] if n.endswith("?") else n for n in names]
-        plain = [n for n in names if "." not in n]
+        pathn = [n[2:] for n in names if n.startswith("::")]      # `::f`: a path / free-function call `a::b::f(..)`
+        plain = [n for n in names if "." not in n and not n.startswith("::")]
         qual = {n.split(".")[1]: n.split(".")[0] for n in names if "." in n}
+        phit = None
+        for q, i in enumerate(sig):
+            if toks[i].kind == "ident" and toks[i].text in pathn and q + 1 < len(sig) and toks[sig[q + 1]].text == "(" \
+                    and (q == 0 or toks[sig[q - 1]].text != "."):
+                close = match_close(toks, sig[q + 1])
+                after = "".join(t.text for t in toks[close + 1:close + 12])
+                if after.startswith("/*r24*/"):
+                    continue
+                k = q
+                while k - 2 >= 0 and toks[sig[k - 1]].text == "::" and toks[sig[k - 2]].kind == "ident":
+                    k -= 2
+                phit = (k, q, close); break
+        if phit is not None:
+            k, q, close = phit
+            a = sig[k]
+            idx = names.index("::" + toks[sig[q]].text)
+            inner = "".join(t.text for t in toks[a:close + 1]) + "/*r24*/"
+            body = ("".join(t.text for t in toks[:a]) + "({ let r24_v = " + inner + "; proof { r24_trace = r24_trace.push(%dint); } r24_v })" % idx
+                    + "".join(t.text for t in toks[close + 1:]))
+            rules_log.append(("R24", f"`{norm(inner)[:120]}`: recorded as event {idx} in the ghost trace r24_trace"))
+            n_done += 1
+            if n_done > 50:
+                raise ExtractError("R24 refused: too many traced calls")
+            continue
         for q, i in enumerate(sig):
             if toks[i].kind == "ident" and (toks[i].text in plain or toks[i].text in qual) and q >= 2 and toks[sig[q - 1]].text == "." \
                     and q + 1 < len(sig) and toks[sig[q + 1]].text == "(":
